@@ -9,11 +9,12 @@ from .. import core, tlc
 # deviations the current tree still has (the machine's deviant track); the others are kept in the spec as expected-fail self-tests
 ALL_DEV = ["D_CTE_VISIBLE_IN_OWN_BODY"]
 SPEC_DEV = ["D_COMMA_JOIN_DROPS_JOINED", "D_SCALAR_SUBQUERY_BLIND", "D_HAVING_SUBQUERY_BLIND", "D_CTE_VISIBLE_IN_OWN_BODY"]
-SPEC_DEV2 = ["D_ON_SUBQUERY_BLIND", "D_NESTED_SET_OPERATION_BLIND"]      # need the clauses of NEST_CLAUSES to fire
+SPEC_DEV2 = ["D_ON_SUBQUERY_BLIND", "D_NESTED_SET_OPERATION_BLIND", "D_SELFREF_AS_TABLE"]      # need the clauses of NEST_CLAUSES to fire
 ALL_CLAUSES = {"where", "isub", "having", "union"}
 PAREN_CLAUSES = {"where", "union", "paren"}
 NEST_CLAUSES = {"union", "on", "ubranch", "where", "where2"}
-EVERY_CLAUSE = {"where", "isub", "having", "union", "paren", "on", "ubranch", "where2"}
+REC_CLAUSES = {"union", "selfref"}
+EVERY_CLAUSE = {"where", "isub", "having", "union", "paren", "on", "ubranch", "where2", "selfref"}
 INVS = ["MachineTablesExact", "LocalsNeverReported", "NoopReportsNothing", "DeviationsAccountedFor", "DefaultEqualsQualified", "EmitCase"]
 
 
@@ -33,8 +34,9 @@ def _run_chunk(args):
     out = []
     for c in cases:
         sql = R.render(c["prog"], R.Opts(alias_scope=c.get("alias_scope", "global"), isub_form=c.get("isub_form", "plain"),
-                                         merge_direct=c.get("merge_direct", False), sub_with=c.get("sub_with", False), where_op=c.get("where_op", "in")))
-        for dia in dialects:
+                                         merge_direct=c.get("merge_direct", False), sub_with=c.get("sub_with", False), where_op=c.get("where_op", "in"),
+                                         cond_with=c.get("cond_with", False), recursive_kw=c.get("recursive_kw", True)))
+        for dia in ([c["dialect"]] if c.get("dialect") else dialects):
             if dia != "ansi" and not d.accepts(sql, dia):
                 out.append(None)
                 continue
@@ -81,6 +83,15 @@ def generate(chk, quick, seed):
                             schemas=("none",), maxcte=0, maxrel=1, maxdepth=1),
                 "generate: subqueries on both sides of a comparison in WHERE", workers=1, coverage=False, timeout=5000)
     cases += [c for c in r.cases("CASE") if sum(1 for e in c["prog"] if e["e"] == "where") >= 2]
+    r = chk.tlc("Stmt", cfg(chk, "genr", 9, kinds=("insert", "query"), known=ALL_DEV, emit=True, clauses={"union", "selfref", "where"}, tbl=("a", "b"), ctes=("a", "x"),
+                            schemas=("none",), maxrel=2, maxdepth=1),
+                "generate: recursive CTEs (the second branch of the body reads the CTE itself)", workers=1, coverage=False, timeout=5000)
+    rec = [c for c in r.cases("CASE") if any(e["e"] == "selfref" for e in c["prog"])]
+    if quick:
+        random.Random(seed + 5).shuffle(rec)
+        rec = rec[:500]
+    # with the keyword under ansi; without it under the dialects that have none
+    cases += rec + [dict(c, recursive_kw=False, dialect=d) for i, c in enumerate(rec) for d in (["tsql", "oracle", "db2"][i % 3],)]
     n_exh = len(cases)
     r = chk.tlc("Stmt", cfg(chk, "gensim", 16, known=ALL_DEV, emit=True, maxdepth=4, maxrel=3, maxcte=2, invariants=["EmitCase"], clauses=EVERY_CLAUSE),
                 "generate: simulated deeper programs (depth 4)", workers=1, coverage=False,
@@ -182,9 +193,14 @@ def run(chk):
     if r.violated:
         raise core.MachineryError("Stmt.tla intended mechanism violates %s" % r.violated)
     chk.require_actions(["OnSub", "NestedBranch"])
+    r = chk.tlc("Stmt", cfg(chk, "mcr", 9, clauses={"union", "selfref", "where"}, kinds=("insert", "query"), schemas=("none",), maxrel=2, maxdepth=1),
+                "O1 with recursive CTEs", workers=16, timeout=6000)
+    if r.violated:
+        raise core.MachineryError("Stmt.tla intended mechanism violates %s" % r.violated)
+    chk.require_actions(["FromSelf"])
     for dev in SPEC_DEV + SPEC_DEV2:
-        r = chk.tlc("Stmt", cfg(chk, "dev_" + dev, 7 if dev in SPEC_DEV2 else 6, known=[dev], invariants=["DeviantTablesExact"],
-                                clauses=NEST_CLAUSES if dev in SPEC_DEV2 else ALL_CLAUSES), "expected-fail " + dev, workers=8,
+        r = chk.tlc("Stmt", cfg(chk, "dev_" + dev, 9 if dev == "D_SELFREF_AS_TABLE" else 7 if dev in SPEC_DEV2 else 6, known=[dev], invariants=["DeviantTablesExact"],
+                                clauses=REC_CLAUSES if dev == "D_SELFREF_AS_TABLE" else NEST_CLAUSES if dev in SPEC_DEV2 else ALL_CLAUSES), "expected-fail " + dev, workers=8,
                     expect_violation=True, coverage=False)
         chk.self_test("spec finds " + dev, bool(r.violated), ",".join(r.violated))
     cases, n_exh = generate(chk, quick, chk.seed)
@@ -211,7 +227,14 @@ def run(chk):
     if quick:
         rnd_.shuffle(wops)
         wops = wops[:1500]
-    cases = cases + multi + nested + subw + wops
+    # ... and the programs with a subquery in a condition or in the select list once more with that subquery written as a WITH query
+    # whose second CTE reads the first (under the same choices of position in the condition / the select item)
+    condw = [dict(c, cond_with=True, where_op=rnd_.choice(["in", "exists", "nested_bool", "all"]), isub_form=rnd_.choice(["plain", "else", "func"]))
+             for c in cases if any(e["e"] in ("where", "on", "having", "isub") for e in c["prog"])]
+    if quick:
+        rnd_.shuffle(condw)
+        condw = condw[:1200]
+    cases = cases + multi + nested + subw + wops + condw
     pool = mp.Pool(16)
     try:
         res = pool.map(_run_chunk, [(c, ["ansi"]) for c in chunks(cases, 64)])
